@@ -125,6 +125,10 @@ var respFaults = []string{"{{ 1 / zero }}\n", "{{ MISSING_IDENT_SENTINEL }}\n", 
 	"@each(r in rows)PAGE-SENTINEL-inner@continueIf(r / zero)x@end\n", "@each(r in rows)PAGE-SENTINEL-inner@breakIf(MISSING_IDENT_SENTINEL)x@end\n",
 	"@each(r in rows)PAGE-SENTINEL-inner@if(r == 2)@continueIf(r.nofn())@end x@end\n",
 	"{{ u = {name: \"n\", age: 1 / zero} }}PAGE-SENTINEL-obj {{ u.name }}\n", "{{ [1, MISSING_IDENT_SENTINEL].len() }}\n",
+	// a failing @elseif condition after a false @if; a failing argument of a registered custom function
+	"@if(zero)PAGE-SENTINEL-a@elseif(MISSING_IDENT_SENTINEL.here)PAGE-SENTINEL-b@else PAGE-SENTINEL-c@end\n",
+	"@if(zero)PAGE-SENTINEL-a@elseif(zero)PAGE-SENTINEL-b@elseif(6 / zero)PAGE-SENTINEL-c@end\n",
+	"{{ \"PAGE-SENTINEL-arg\".echo(MISSING_IDENT_SENTINEL) }}\n", "{{ \"PAGE-SENTINEL-arg\".echo(1, 6 / zero) }}\n", "{{ rows.echoarr(rows, MISSING_IDENT_SENTINEL.x) }}\n",
 	// the message holds a percent sign
 	"{{ 7 % \"2\" }}\n", "{{ \"a\" % 3 }}\n",
 	// the page fails in a later pass of a loop, after the loop has produced output
@@ -139,11 +143,16 @@ func init() {
 	core.Register(&core.Check{
 		ID:    "C17",
 		Level: "exploration",
-		Rule: "cases are all combinations of {debug on, off} x {no custom error page, a valid one, one whose file is missing, one that fails at run time} x templates that succeed, fail at statement i of n for every i (n <= 4) at top level, in pass i of a loop, inside an insert block, inside the layout, inside a component file, inside a slot body, inside a component argument, inside a component argument the component never reads, inside the expression of a two-argument insert, or name an unknown template or a layout, x 15 run-time fault kinds (two with a percent sign in the message; the directory name holds one too); sequences of 2-4 configurations without a reset in between that differ in the debug flag only (the last one governs); the configurations follow each other in one process in seeded order (a stale page cached from another configuration would show). " +
+		Rule: "cases are all combinations of {debug on, off} x {no custom error page, a valid one, one whose file is missing, one that fails at run time} x templates that succeed, fail at statement i of n for every i (n <= 4) at top level, in pass i of a loop, inside an insert block, inside the layout, inside a component file, inside a slot body, inside a component argument, inside a component argument the component never reads, inside the expression of a two-argument insert, or name an unknown template or a layout, x 20 run-time fault kinds (two with a percent sign in the message; the directory name holds one too); sequences of 2-4 configurations without a reset in between that differ in the debug flag only (the last one governs); the configurations follow each other in one process in seeded order (a stale page cached from another configuration would show). " +
 			"A recording http.ResponseWriter captures body and writes; pages, identifiers, file names and the scratch directory carry sentinels, so 'part of the failed page', 'the message' and 'a path' are substring tests; the expected page is selected by the table of the statement. distinct_nontrivial = distinct (configuration, place, fault, position) combinations",
 		Assumptions: []string{
 			"configuration is set through NewTemplate after the verif reset hook (fields are sticky otherwise)",
 			"with debug on the line is only checked for being present as ':<line>' after the path",
+		},
+		Setup: func(c *core.Ctx) {
+			textwire.VerifReset()
+			textwire.RegisterStrFunc("echo", func(s string, args ...any) string { return s + fmt.Sprint(args...) })
+			textwire.RegisterArrFunc("echoarr", func(a []any, args ...any) []any { return append(a, args...) })
 		},
 		Sections: func(tier core.Tier, seed int64) []core.Section {
 			type combo struct {
@@ -282,12 +291,14 @@ func init() {
 			}
 			sequences := core.Section{Name: "configuration-sequences", N: nSeq, Run: func(c *core.Ctx, i int) {
 				mode := errPageModes[c.Rng.Intn(len(errPageModes))]
-				files := map[string]string{"page.tw": "PAGE-SENTINEL-0 {{ MISSING_IDENT_SENTINEL }}", "fine.tw": "PAGE-SENTINEL-fine {{ 1 + 1 }}"}
+				// the pages assign at top level before they fail or end; the failing error page reads that name
+				// (the calls pass no data: nothing of one render may be left for the next)
+				files := map[string]string{"page.tw": "{{ leaked = \"PAGE-SENTINEL-var\" }}{{ note = [1] }}PAGE-SENTINEL-0 {{ MISSING_IDENT_SENTINEL }}", "fine.tw": "{{ leaked = \"PAGE-SENTINEL-var\" }}PAGE-SENTINEL-fine {{ 1 + 1 }}"}
 				switch mode {
 				case "valid":
-					files["errors/oops.tw"] = customPageSource
+					files["errors/oops.tw"] = "{{ note = \"a note\" }}" + customPageSource
 				case "failing":
-					files["errors/oops.tw"] = "CUSTOM-SENTINEL start {{ 1 / 0 }}"
+					files["errors/oops.tw"] = "CUSTOM-SENTINEL start {{ leaked }}"
 				}
 				dir := "c17seq-DIRSENTINEL"
 				if err := writeFilesFresh(dir, files); err != nil {
